@@ -152,7 +152,7 @@ Section Protocol.
         rewrite Nat.eqb_refl in H. cbn [negb andb] in H.
         destruct (Nat.ltb tlimit (length pubs)).
         { inversion H; subst. split; auto. split; auto. left. eexists; split; reflexivity. }
-        destruct (merge (map to_mpub pubs) (map to_mpub (pubs_between b b1 ++ pubs_between b1 b2))) as [[out maxo] ok].
+        destruct (merge (map to_mpub pubs) (map to_mpub (buffered_of b g1 g2))) as [[out maxo] ok].
         destruct ok; cbn [negb] in H.
         - inversion H; subst b' s' l' rep. split; auto. split; auto. right. do 2 eexists. split; [reflexivity|]. split; [eexists; reflexivity|].
           split; [reflexivity|]. split; [exact Hxb|].
@@ -180,15 +180,16 @@ Section Protocol.
       rewrite changes_length in * by lia. lia. }
     destruct (Nat.eq_dec (b_epoch b2) (b_epoch b1)) as [Ee2|Ne2].
     2:{ (* clear inside g2: nothing to claim about the new epoch *)
-        destruct (merge (map to_mpub pubs) (map to_mpub (pubs_between b b1 ++ pubs_between b1 b2))) as [[out maxo] ok].
+        destruct (merge (map to_mpub pubs) (map to_mpub (buffered_of b g1 g2))) as [[out maxo] ok].
         destruct ok; cbn [negb] in H.
         - inversion H; subst. split; auto. split; auto. right. do 2 eexists. split; [reflexivity|]. split; [eexists; reflexivity|].
           split; [reflexivity|]. split; [reflexivity|]. intros Hb. exfalso. fold b2 in Hb. congruence.
         - inversion H; subst. split; auto. split; auto. left. eexists; split; reflexivity. }
     pose proof (apply_ws_ext g2 b1 Ee2) as X2. fold b2 in X2.
     pose proof (ext_top _ _ X2) as T2.
-    assert (Hbuf : pubs_between b b1 ++ pubs_between b1 b2 = changes b2 (top b) (top b2)).
-    { rewrite (pubs_between_changes _ _ X1), (pubs_between_changes _ _ X2).
+    assert (Hbuf : buffered_of b g1 g2 = changes b2 (top b) (top b2)).
+    { unfold buffered_of. fold b1. fold b2. rewrite Ee2, Ee1, !Nat.eqb_refl. cbn [andb].
+      rewrite (pubs_between_changes _ _ X1), (pubs_between_changes _ _ X2).
       rewrite <- (ext_changes b1 b2 (top b) (top b1) X2) by lia. symmetry. apply changes_split; lia. }
     assert (Hpubs : pubs = changes b2 since (top b1)).
     { rewrite Hfull. symmetry. apply ext_changes; auto; lia. }
